@@ -106,6 +106,7 @@ type note struct {
 
 // Task is one goroutine under the simulator's control.
 type Task struct {
+	ncalls  int // requests this task has posted (its own steps)
 	ended   bool
 	endedAt time.Duration
 	id    int
@@ -201,6 +202,7 @@ func (t *Task) setDone() { t.state = stDone }
 //
 //go:norace
 func (t *Task) call() {
+	t.ncalls++
 	t.state = stWaiting
 	raceReleaseMerge(t.syncAddr())
 	raceDisable()
@@ -390,6 +392,23 @@ func Record(kind, a, b string, n int64) int {
 // SimNow returns the simulated time (for worlds).
 //
 //go:norace
+// MySteps returns the number of requests (scheduling steps) the calling task has made so far: a measure of how much
+// the task itself did between two points, whatever the others did meanwhile.
+//
+//go:norace
+func MySteps() int {
+	t := me()
+	if t == nil {
+		return 0
+	}
+	return t.ncalls
+}
+
+// Steps returns the number of requests the task has made so far (tasks run one at a time: another task may ask).
+//
+//go:norace
+func (t *Task) Steps() int { return t.ncalls }
+
 func SimNow() time.Duration {
 	if cur == nil {
 		return 0
